@@ -17,6 +17,8 @@ package main
 
 import (
 	"fmt"
+	"os"
+	"path/filepath"
 	"reflect"
 	"sort"
 	"strings"
@@ -333,4 +335,62 @@ func c17history(c *ctx, defs []*c17def, d *c17def, mode int, withSession, verbos
 	o := c17runSession(d, cur, tgt, true, 0, "", history)
 	c.res.Count("history:session")
 	c17judge(c, d, cur, tgt, true, "", o, caseLine, verbose)
+}
+
+// c17decoy: by-name loads from a private working directory that holds decoy files named exactly
+// like the platforms (and like their asset files): a valid definition of a DIFFERENT platform, or
+// garbage. An advertised name must still load the embedded definition (Lean:
+// embedded_name_ignores_file_system, embedded_lookup_first). Runs alone: it changes the process's
+// working directory and restores it.
+func c17decoy(c *ctx, adv []string, defs []*c17def, verbose bool) {
+	wd, err := os.Getwd()
+	if err != nil {
+		return
+	}
+	other := c17genUser(77).render()
+	for mode, content := range []string{other, "\x00\x01 not: [yaml\n\t- {"} {
+		dir, err := os.MkdirTemp("", "c17-decoy-")
+		if err != nil {
+			return
+		}
+		for _, d := range defs {
+			_ = os.WriteFile(filepath.Join(dir, c17stem(d.file)), []byte(content), 0o600)
+			_ = os.WriteFile(filepath.Join(dir, d.file), []byte(content), 0o600)
+		}
+		for _, n := range adv {
+			_ = os.WriteFile(filepath.Join(dir, n), []byte(content), 0o600)
+		}
+		if err := os.Chdir(dir); err != nil {
+			os.RemoveAll(dir)
+			return
+		}
+		for _, d := range defs {
+			for _, name := range []string{c17stem(d.file), d.file} {
+				v := d.variant
+				if v == "" {
+					v = "-"
+				}
+				caseLine := fmt.Sprintf("c17decoy %s %s %d", name, v, mode)
+				c.res.Case(caseLine, true)
+				c.res.InDomain++
+				c.res.Count([]string{"decoy:other-definition", "decoy:garbage"}[mode])
+				p, err, pmsg := c17new(name, d.variant, c17baseOpts(sim.NewPipe())...)
+				diff := ""
+				if err != nil || pmsg != "" {
+					diff = fmt.Sprintf("does not load: err=%v panic=%q", err, pmsg)
+				} else {
+					diff = c17freshDiff(d, p)
+				}
+				if verbose {
+					fmt.Printf("%s: %q\n", caseLine, diff)
+				}
+				if diff != "" {
+					c.res.Fail("oracle", caseLine, fmt.Sprintf("NewPlatform(%q) from a working directory that holds a file named %q (%s): the embedded definition must be loaded, but %s",
+						name, name, []string{"a valid definition of another platform", "not YAML"}[mode], diff), "working-directory-file-shadows-embedded:"+d.label())
+				}
+			}
+		}
+		_ = os.Chdir(wd)
+		os.RemoveAll(dir)
+	}
 }
